@@ -73,6 +73,8 @@ def all_harnesses():
                                   unit=f"Buffer::{op}", expect="refuse",
                                   shape={"type": "u8", "cap": cap, "rpos": r, "used": u, "op": "refuse-" + op, "n": n},
                                   core=(cap == 2 and r == 1)))
+    hs.append(Harness("c01_nondividing_elem3_buf8", "crate::ring::nondividing()", unwind=8, unit="Buffer (element size not dividing the buffer)",
+                      expect="refuse", shape={"type": "[u8;3]", "bytes": 8}, core=True))
     # histories
     for cap, length, tk in ((2, 4, "u8"), (2, 5, "u8"), (3, 4, "u32")):
         for i, sc in enumerate(scripts(cap, length)):
